@@ -1,9 +1,135 @@
-(* C19 -- SpiNN-5 board geometry functions agree with the board tiling. *)
+(* C19 -- SpiNN-5 board geometry functions agree with the board tiling.
+   This file holds the property theorems only; each is closed by `exact` of a lemma of Proofs/Board.v.
+   The theorems are about Generated/GenBoardTables.v (SPINN5_ETH_OFFSET, SPINN5_FPGA_LINKS, Links: dumped
+   from the live module on every run) and Generated/GenBoard.v (the two kernels that index the table,
+   translated from the source text), so an edited table cell or index expression is re-checked here.
+   The tiling itself (Spec/Board.v) is stated without reference to rig: a board with Ethernet chip e
+   holds the chips e + (dx, dy), 0 <= dx, dy <= 7, dy - dx <= 3, dx - dy <= 4; Ethernet chips sit at
+   root + (12 i, 12 j) + {(0,0), (4,8), (8,4)}.  All quantifiers range over all integers. *)
 From Coq Require Import ZArith List Bool.
-Require Import Rig.Generated.GenBoardTables Rig.Generated.GenBoard Rig.Model.Base Rig.Model.Board Rig.Spec.Board Rig.Proofs.Board.
+Require Import Rig.Generated.GenBoardTables Rig.Generated.GenBoard Rig.Model.Base Rig.Model.Board
+               Rig.Spec.Board Rig.Proofs.Board.
 Import ListNotations.
 Open Scope Z_scope.
 
+(* The described boards tile the plane: every chip lies on exactly one board, whatever the root. *)
+Theorem C19_tiling_partition :
+  forall root c, exists! e, board_eth root c e.
+Proof. exact tiling_partition. Qed.
+
+(* The dumped array is 12 x 12, so the kernels' `% 12` indices never leave it (no IndexError branch). *)
 Theorem C19_eth_table_is_12x12 :
   length SPINN5_ETH_OFFSET = 12%nat /\ Forall (fun r => length r = 12%nat) SPINN5_ETH_OFFSET.
 Proof. exact eth_table_is_12x12. Qed.
+
+(* Local Ethernet chip, torus machines (width and height positive multiples of 12): for every chip of
+   the machine and every root, the reported chip is inside the machine, is an Ethernet chip, has the
+   given chip on its board (offsets taken around the torus), and is the only such chip. *)
+Theorem C19_local_eth_is_board_eth :
+  forall w h rx ry x y,
+    full_torus w h -> in_machine w h (x, y) ->
+    exists e, spinn5_local_eth_coord x y w h rx ry = Ok e /\
+              in_machine w h e /\ is_eth (rx, ry) e /\ on_board_torus w h e (x, y) /\
+              (forall e', in_machine w h e' -> is_eth (rx, ry) e' -> on_board_torus w h e' (x, y) -> e' = e).
+Proof. exact local_eth_is_board_eth_torus. Qed.
+
+(* Local Ethernet chip, any non-zero dimensions (ragged machines included): the result is the Ethernet
+   chip of the chip's board in the unbounded tiling, reduced mod (w, h) ... *)
+Theorem C19_local_eth_is_wrapped_board_eth :
+  forall x y w h rx ry e,
+    w <> 0 -> h <> 0 -> board_eth (rx, ry) (x, y) e ->
+    spinn5_local_eth_coord x y w h rx ry = Ok (wrap w h e).
+Proof. exact local_eth_is_wrapped_board_eth. Qed.
+
+(* ... hence, in a ragged machine, exactly that chip whenever it lies inside the machine (the explicit
+   guard: a board whose Ethernet chip is outside a ragged machine has no local Ethernet chip in it). *)
+Theorem C19_local_eth_ragged :
+  forall x y w h rx ry e,
+    board_eth (rx, ry) (x, y) e -> in_machine w h e ->
+    spinn5_local_eth_coord x y w h rx ry = Ok e.
+Proof. exact local_eth_ragged. Qed.
+
+(* the error branch: a zero dimension is a ZeroDivisionError *)
+Theorem C19_local_eth_zero_dimension :
+  forall x y w h rx ry, w = 0 \/ h = 0 -> spinn5_local_eth_coord x y w h rx ry = OtherError.
+Proof. exact local_eth_zero_dim. Qed.
+
+(* The on-board coordinate is the offset from the board's Ethernet chip. *)
+Theorem C19_chip_coord_is_offset :
+  forall x y rx ry e,
+    board_eth (rx, ry) (x, y) e -> spinn5_chip_coord x y rx ry = Ok (x - fst e, y - snd e).
+Proof. exact chip_coord_is_offset. Qed.
+
+(* The generator yields exactly the Ethernet chips inside the machine, each once, for every width,
+   height (multiples of 12 or not, zero and negative too: then nothing) and every root. *)
+Theorem C19_eth_coords_exact :
+  forall width height rx ry,
+    NoDup (spinn5_eth_coords width height rx ry) /\
+    forall e, In e (spinn5_eth_coords width height rx ry) <->
+              (in_machine width height e /\ is_eth (rx, ry) e).
+Proof. exact eth_coords_exact. Qed.
+
+(* A link is reported as an FPGA link exactly when it leaves the chip's board.  l ranges over all
+   integers: for numbers that are not links nothing is reported and nothing leaves. *)
+Theorem C19_fpga_link_iff_leaves_board :
+  forall x y l rx ry e,
+    board_eth (rx, ry) (x, y) e ->
+    exists r, spinn5_fpga_link x y l rx ry = Ok r /\
+              (r <> None <-> link_leaves_board e (x, y) l).
+Proof. exact fpga_link_iff_leaves_board. Qed.
+
+(* Distinct FPGA link numbers: equal reported numbers mean the same on-board position and link ... *)
+Theorem C19_fpga_link_injective :
+  forall x1 y1 l1 x2 y2 l2 rx ry f,
+    spinn5_fpga_link x1 y1 l1 rx ry = Ok (Some f) -> spinn5_fpga_link x2 y2 l2 rx ry = Ok (Some f) ->
+    spinn5_chip_coord x1 y1 rx ry = spinn5_chip_coord x2 y2 rx ry /\ l1 = l2.
+Proof. exact fpga_link_injective. Qed.
+
+(* ... so on one board no two links share a number. *)
+Theorem C19_fpga_link_distinct_on_board :
+  forall x1 y1 l1 x2 y2 l2 rx ry e f,
+    board_eth (rx, ry) (x1, y1) e -> board_eth (rx, ry) (x2, y2) e ->
+    spinn5_fpga_link x1 y1 l1 rx ry = Ok (Some f) -> spinn5_fpga_link x2 y2 l2 rx ry = Ok (Some f) ->
+    (x1, y1, l1) = (x2, y2, l2).
+Proof. exact fpga_link_distinct_on_board. Qed.
+
+(* rig's Links enumeration and Links.to_vector are the link numbering used by the description. *)
+Theorem C19_links_agree :
+  Links_all = [0; 1; 2; 3; 4; 5] /\
+  map (fun p => (fst p, Some (snd p))) Links_to_vector = map (fun l => (l, link_vector l)) Links_all.
+Proof. exact links_agree. Qed.
+
+(* Standard dimensions: for n = 3 k boards, k >= 1, the result is 12 x the squarest arrangement of k
+   three-board units.  (Model with Z.sqrt for int(sqrt(k)); compared with the code over the range stated
+   in the evidence file.) *)
+Theorem C19_standard_dims_squarest :
+  forall n k, 1 <= k -> n = 3 * k ->
+    exists a b, standard_system_dimensions n = Ok (a * 12, b * 12) /\ squarest k a b.
+Proof. exact standard_dims_squarest. Qed.
+
+Theorem C19_standard_dims_special :
+  standard_system_dimensions 0 = Ok (0, 0) /\ standard_system_dimensions 1 = Ok (8, 8).
+Proof. exact standard_dims_special. Qed.
+
+(* every other board count is the ValueError *)
+Theorem C19_standard_dims_error :
+  forall n, n <> 0 -> n <> 1 -> n mod 3 <> 0 \/ n < 0 -> standard_system_dimensions n = Failed 0.
+Proof. exact standard_dims_error. Qed.
+
+(* Non-vacuity. *)
+Example C19_board_eth_satisfiable : board_eth (3, 5) (10, 9) (3, 5).
+Proof. exact ex_board_eth. Qed.
+
+Example C19_torus_hypotheses_satisfiable :
+  full_torus 24 12 /\ in_machine 24 12 (4, 2) /\ board_eth (3, 5) (4, 2) (-1, -3) /\
+  spinn5_local_eth_coord 4 2 24 12 3 5 = Ok (23, 9) /\ spinn5_chip_coord 4 2 3 5 = Ok (5, 5).
+Proof. exact ex_torus. Qed.
+
+Example C19_link_leaves_board_satisfiable :
+  link_leaves_board (0, 0) (0, 0) 3 /\ spinn5_fpga_link 0 0 3 0 0 = Ok (Some (1, 1)) /\
+  ~ link_leaves_board (0, 0) (0, 0) 0 /\ spinn5_fpga_link 0 0 0 0 0 = Ok None.
+Proof. exact ex_links. Qed.
+
+Example C19_standard_dims_instance :
+  standard_system_dimensions 18 = Ok (36, 24) /\ squarest 6 3 2.
+Proof. exact ex_dims. Qed.
